@@ -43,8 +43,11 @@ RemoveDef(s, i) == IF i < 0 \/ i >= Len(s) THEN <<s, 0, FALSE>> ELSE <<SubSeq(s,
 
 TwoCases == \A s1 \in Slices : \A s2 \in Short :
     Emit([fn |-> "two", s |-> s1, a |-> <<s2>>, out |-> [diff |-> DiffDef(s1, s2), inter |-> InterDef(s1, s2), equal |-> (s1 = s2), equalnan |-> EqNaN(s1, s2)]])
+\* Unique on elements that are not equal to themselves (the model value 2 = NaN): no NaN is a duplicate of another
+UniqueNaN(s) == LET keep == {i \in 1..Len(s) : s[i] = 2 \/ \A j \in 1..i - 1 : s[j] # s[i]} IN
+                [k \in 1..Cardinality(keep) |-> s[CHOOSE i \in keep : Cardinality({j \in keep : j < i}) = k - 1]]
 OneCases == \A s \in Slices :
-    Emit([fn |-> "one", s |-> s, a |-> <<>>, out |-> [unique |-> UniqueDef(s), uniquekey |-> UniqueKeyDef(s), filter |-> FilterDef(s),
+    Emit([fn |-> "one", s |-> s, a |-> <<>>, out |-> [unique |-> UniqueDef(s), uniquekey |-> UniqueKeyDef(s), filter |-> FilterDef(s), uniquenan |-> UniqueNaN(s),
                                                      index |-> [e \in 1..4 |-> IndexDef(s, e)]]])
 \* Huge stands for the largest int (the runner passes math.MaxInt / math.MinInt for +Huge / -Huge): arguments far beyond
 \* the length must be clamped like any other oversized argument, without overflowing on the way
